@@ -449,6 +449,42 @@ func rtExec(a *absMsg, r *Rng, ep, dp string) (args []string, obs string) {
 
 func init() {
 	suites["rt"] = func(o *Out, r *Rng, n int, tier string) {
+		emit := func(a *absMsg) {
+			for _, ep := range []string{"B", "S"} {
+				for _, dp := range []string{"B", "S"} {
+					args, obs := rtExec(a, r, ep, dp)
+					o.id++
+					fmt.Fprintf(o.w, "%d C01 RT %s => %s\n", o.id, strings.Join(args, " "), obs)
+				}
+			}
+			o.w.Flush()
+		}
+		// seed-independent block 1: the size option at every width boundary of the integer formats, alone and next to a chunk id,
+		// in every kind that carries options (an encoder that special-cases "small" sizes has to get each class right)
+		for _, kind := range []string{"MSG", "EXT", "FWD", "PFM", "OPT"} {
+			for _, sz := range []int{0, 1, 31, 32, 127, 128, 129, 200, 255, 256, 257, 32767, 32768, 65535, 65536, 1 << 31, -1, -31, -32, -33, -128, -129, -32768, -32769} {
+				for _, withChunk := range []bool{false, true} {
+					a := genAbs(r, kind, tier)
+					v := sz
+					a.opts = &protocol.MessageOptions{Size: &v}
+					if withChunk {
+						a.opts.Chunk = string(genChunkID(r))
+					}
+					emit(a)
+				}
+			}
+		}
+		// seed-independent block 2: Forward messages of 0 … 257 tiny entries with the size option the constructor gives them
+		for _, cnt := range []int{0, 1, 15, 16, 17, 127, 128, 129, 255, 256, 257} {
+			a := genAbs(r, "FWD", tier)
+			a.entries = make([]absEntry, cnt)
+			for i := range a.entries {
+				a.entries[i] = absEntry{t: time.Unix(int64(1700000000+i), int64(i)).UTC(), rec: &Node{K: KMap}}
+			}
+			v := cnt
+			a.opts = &protocol.MessageOptions{Size: &v}
+			emit(a)
+		}
 		for i := 0; i < n; i++ {
 			kind := rtKinds[r.Intn(len(rtKinds))]
 			if r.Chance(50) {
